@@ -431,20 +431,25 @@ def writer_oracle(obs):
     want = list(obs['nb'])
     if len(data) != len(want):
         errs.append('%d lines written for %d Go potentials' % (len(data), len(want)))
-    seen = {}
     for t in data:
         if len(t) != 5 or t[2] != '1':
             errs.append('malformed nonbond_params line %r' % (t,))
-            continue
-        seen[frozenset(t[:2])] = seen.get(frozenset(t[:2]), 0) + 1
+    good = [t for t in data if len(t) == 5]
+    count_file, count_want = {}, {}
+    for t in good:
+        count_file[frozenset(t[:2])] = count_file.get(frozenset(t[:2]), 0) + 1
     for p_ in want:
-        key = frozenset(p_.atoms)
-        hits = [t for t in data if len(t) == 5 and frozenset(t[:2]) == key]
-        if sum(1 for q in want if frozenset(q.atoms) == key) == 1 and len(hits) != 1:
-            errs.append('Go pair %r written %d times' % (tuple(p_.atoms), len(hits)))
-        for t in hits[:1]:
+        count_want[frozenset(p_.atoms)] = count_want.get(frozenset(p_.atoms), 0) + 1
+    for key in set(count_file) | set(count_want):
+        if count_file.get(key, 0) != count_want.get(key, 0):
+            errs.append('Go pair %r: %d potentials emitted, written %d times'
+                        % (sorted(key), count_want.get(key, 0), count_file.get(key, 0)))
+    if len(good) == len(want):
+        # all Go potentials belong to one (conditional, group) block, which keeps the emission order
+        for t, p_ in zip(good, want):
             if [t[0], t[1]] != list(p_.atoms):
                 errs.append('Go pair %r written as %r' % (tuple(p_.atoms), t[:2]))
+                continue
             try:
                 if abs(float(t[3]) - p_.sigma) > 5.000001e-9 or abs(float(t[4]) - p_.epsilon) > 5.000001e-9:
                     errs.append('Go pair %r written with sigma/epsilon %s %s, computed %r %r'
